@@ -204,7 +204,8 @@ func (s *state) Add(ctx context.Context, transaction Transaction, payload []byte
 		return s.updateState(tx, transaction)
 	}, stoabs.OnRollback(func() {
 		log.Logger().Warn("Reloading the XOR and IBLT trees due to a DB transaction Rollback")
-		s.loadState(ctx)
+		// ctx may be the reason for the rollback (cancelled or expired), the trees must be reloaded regardless.
+		s.loadState(context.WithoutCancel(ctx))
 	}), stoabs.AfterCommit(func() {
 		if txAdded {
 			s.notify(txEvent)
